@@ -6,7 +6,8 @@
    Part 2  (T2) [scan_block_scalar_content_line]
    Part 3  (T3) [skip_spaces_to], [skip_block_scalar_indent] (both the narrow and the wide-indent path),
                 [skip_first_line_indent]
-   Part 4  (T4) [scan_block_scalar] for literal style *)
+   Part 4  (T4) [scan_block_scalar], literal and folded style
+   Part 5  the complete statement [C05_full], contexts, pipeline examples, refutation witnesses *)
 From Coq Require Import List NArith ZArith Bool Arith Lia.
 Import ListNotations.
 Require Import Parser SBase SPrim SDir SScalar BlockScalar.
@@ -478,7 +479,7 @@ Proof.
 Qed.
 
 (* ========================================================================================== *)
-(* Part 4 (T4): scan_block_scalar, literal style                                                *)
+(* Part 4 (T4): scan_block_scalar, both styles                                                 *)
 (* ========================================================================================== *)
 (* the content loop of scan_block_scalar, named *)
 Section Loop.
@@ -518,10 +519,18 @@ Definition chunk_lines (c : chunk) : list bline :=
   let '(ks, e, s) := c in map Blank ks ++ [Text e s].
 
 (* what the loop has accumulated after the chunks (reversed); [lb] = 0 before the first content line, 1 after *)
-Fixpoint acc_chunks (acc : list chr) (lb : N) (cs : list chunk) : list chr :=
+(* what one round prepends to the accumulator before the line itself (the fold decision of scan_block_scalar) *)
+Definition fold_sep (literal : bool) (acc : list chr) (lb tb : N) (leading_blank trailing_blank : bool) : list chr :=
+  if negb literal && negb (lb =? 0) && negb leading_blank && negb trailing_blank then
+    (if tb =? 0 then 32 :: acc else nls tb acc)
+  else nls tb (nls lb acc).
+
+Fixpoint acc_chunks (literal : bool) (acc : list chr) (lb : N) (lbk : bool) (cs : list chunk) : list chr :=
   match cs with
   | [] => acc
-  | (ks, e, s) :: r => acc_chunks (rev (sps e ++ s) ++ nls (N.of_nat (length ks)) (nls lb acc)) 1 r
+  | (ks, e, s) :: r =>
+      acc_chunks literal (rev (sps e ++ s) ++ fold_sep literal acc lb (N.of_nat (length ks)) lbk (is_blank (hd0 (sps e ++ s))))
+                 1 (is_blank (hd0 (sps e ++ s))) r
   end.
 
 Lemma nobreak_sps_app e s : nobreak s -> nobreak (sps e ++ s).
@@ -540,21 +549,21 @@ Lemma breakz_parts c : is_breakz c = false -> is_z c = false /\ is_break c = fal
 Proof. unfold is_breakz. intros H. apply orb_false_iff in H. tauto. Qed.
 
 (* one round of the loop at the start of a content line [txt] that is followed by a line feed *)
-Lemma bs_loop_round : forall (txt R : list chr) F n f acc lb tb lbk s lk m w,
+Lemma bs_loop_round : forall (txt R : list chr) F literal n f acc lb tb lbk s lk m w,
   nobreak txt -> txt <> [] -> n <> O -> m_col m = N.of_nat n -> (length txt < F)%nat ->
-  bs_loop F true (N.of_nat n) (S f) acc lb tb lbk (mv s (txt ++ 10 :: R) lk m w)
+  bs_loop F literal (N.of_nat n) (S f) acc lb tb lbk (mv s (txt ++ 10 :: R) lk m w)
   = (tb' <- skip_block_scalar_indent str_ops F F (N.of_nat n) 0 ;;
-     bs_loop F true (N.of_nat n) f (rev txt ++ nls tb (nls lb acc)) 1 tb' (is_blank (hd0 txt)))
+     bs_loop F literal (N.of_nat n) f (rev txt ++ fold_sep literal acc lb tb lbk (is_blank (hd0 txt))) 1 tb' (is_blank (hd0 txt)))
       (mv s R (Nat.max lk 2) (nlm (mark_after m txt)) true).
 Proof.
-  intros txt R F n f acc lb tb lbk s lk m w Hnb Hne Hn Hcol HF.
+  intros txt R F literal n f acc lb tb lbk s lk m w Hnb Hne Hn Hcol HF.
   cbn [bs_loop].
   mstep ltac:(apply col_mv). mstep ltac:(apply next_is_mv).
   rewrite Hcol, N.eqb_refl. rewrite (hd0_app_ne txt) by exact Hne.
   destruct (breakz_parts _ (nobreak_hd0 _ Hnb Hne)) as [Hz Hb]. rewrite Hz. cbn [negb orb].
   destruct (N.eqb_spec (N.of_nat n) 0) as [E|_]; [lia|].
   mstep ltac:(reflexivity). mstep ltac:(apply next_is_mv). rewrite (hd0_app_ne txt) by exact Hne.
-  cbn [negb andb].
+  fold (fold_sep literal acc lb tb lbk (is_blank (hd0 txt))).
   mstep ltac:(apply content_line_spec; [exact Hnb|reflexivity|exact HF]).
   mstep ltac:(apply look_mv). mstep ltac:(apply next_is_mv). hd0c. change (is_z 10) with false. cbv iota.
   mstep ltac:(apply skip_break_lf). reflexivity.
@@ -574,19 +583,19 @@ Qed.
 
 (* the loop from the start of a line (after a line break) through the remaining chunks, the trailing blank lines
    and the indentation of the less indented line that follows *)
-Lemma bs_loop_chunks : forall (chunks : list chunk) (tks : list nat) (j : nat) (r' : list chr) F n f acc lbk s lk m,
+Lemma bs_loop_chunks : forall (chunks : list chunk) (tks : list nat) (j : nat) (r' : list chr) F literal n f acc lbk s lk m,
   n <> O -> Forall (chunk_ok F n) chunks ->
   Forall (fun k => (k <= n)%nat) tks -> Forall (fun k => (k < F)%nat) tks -> (length tks < F)%nat ->
   (j < n)%nat -> (j < F)%nat -> hd0 r' <> 32 -> is_break (hd0 r') = false ->
   m_col m = 0 -> (length chunks < f)%nat ->
   exists lk', (lk <= lk')%nat /\ lk' <> O /\
-  (tb <- skip_block_scalar_indent str_ops F F (N.of_nat n) 0 ;; bs_loop F true (N.of_nat n) f acc 1 tb lbk)
+  (tb <- skip_block_scalar_indent str_ops F F (N.of_nat n) 0 ;; bs_loop F literal (N.of_nat n) f acc 1 tb lbk)
     (mv s (flat_map (chunk_text n) chunks ++ blank_lines tks ++ sps j ++ r') lk m true)
-  = Ok ((acc_chunks acc 1 chunks, 1, N.of_nat (length tks)),
+  = Ok ((acc_chunks literal acc 1 lbk chunks, 1, N.of_nat (length tks)),
         mv s r' lk' (mark_after m (flat_map (chunk_text n) chunks ++ blank_lines tks ++ sps j)) true).
 Proof.
   induction chunks as [|[[ks e] txt] chunks IH];
-    intros tks j r' F n f acc lbk s lk m Hn Hch Htks HtksF HtksL Hj HjF Hr Hrb Hcol Hf.
+    intros tks j r' F literal n f acc lbk s lk m Hn Hch Htks HtksF HtksL Hj HjF Hr Hrb Hcol Hf.
   - cbn [flat_map app acc_chunks].
     destruct (skip_block_scalar_indent_spec tks j r' F F (N.of_nat n) 0 s lk m) as [lk' [Hle [Hne Hs]]]; auto.
     { apply Forall_impl with (2 := Htks). intros k Hk. lia. }
@@ -620,7 +629,8 @@ Proof.
     assert (Hcol1 : m_col m1 = N.of_nat n) by (apply col_after_blank_lines; exact Hcol).
     assert (Hne' : sps e ++ txt <> []).
     { destruct Hne as [He|Hs']; [destruct e; [congruence|discriminate]|destruct e; [exact Hs'|discriminate]]. }
-    destruct (IH tks j r' F n f (rev (sps e ++ txt) ++ nls (N.of_nat (length ks)) (nls 1 acc))
+    destruct (IH tks j r' F literal n f
+                 (rev (sps e ++ txt) ++ fold_sep literal acc 1 (N.of_nat (length ks)) lbk (is_blank (hd0 (sps e ++ txt))))
                  (is_blank (hd0 (sps e ++ txt))) s (Nat.max lk1 2) (nlm (mark_after m1 (sps e ++ txt))))
       as [lk' [Hle [Hne2 Hrec]]]; auto.
     { cbn [length] in Hf. lia. }
@@ -648,19 +658,34 @@ Qed.
 Lemma lfs_add a b : lfs a ++ lfs b = lfs (a + b).
 Proof. unfold lfs. symmetry. apply repeat_app. Qed.
 
-Lemma acc_chunks_body : forall (chunks : list chunk) tks acc lb prev,
-  (lb = 0 /\ prev = None) \/ (lb = 1 /\ exists b, prev = Some b) ->
-  rev (acc_chunks acc lb chunks) = rev acc ++ body true prev 0 (flat_map chunk_lines chunks ++ map Blank tks).
+Lemma is_blank_spaced e (s : list chr) : is_blank (hd0 (sps e ++ s)) = spaced e s.
+Proof. destruct e as [|e]; [destruct s as [|c s]|]; reflexivity. Qed.
+
+(* the fold decision of the scanner against [sep] of the specification *)
+Lemma fold_sep_sep literal acc lb k lbk tblank prev :
+  (lb = 0 /\ prev = None) \/ (lb = 1 /\ prev = Some lbk) ->
+  rev (fold_sep literal acc lb (N.of_nat k) lbk tblank) = rev acc ++ sep literal prev k tblank.
 Proof.
-  induction chunks as [|[[ks e] s] chunks IH]; intros tks acc lb prev Hlb.
+  intros [[-> ->]|[-> ->]]; unfold fold_sep, sep.
+  - change (negb (0 =? 0)) with false. rewrite andb_false_r. cbn [andb]. rewrite nls_of_nat. reflexivity.
+  - change (negb (1 =? 0)) with true. rewrite andb_true_r.
+    destruct (negb literal && negb lbk && negb tblank).
+    + destruct k as [|k].
+      * reflexivity.
+      * destruct (N.eqb_spec (N.of_nat (S k)) 0) as [E|_]; [lia|]. rewrite nls_of_nat. reflexivity.
+    + rewrite nls_of_nat, rev_nls, <- app_assoc. reflexivity.
+Qed.
+
+Lemma acc_chunks_body : forall (chunks : list chunk) tks literal acc lb lbk prev,
+  (lb = 0 /\ prev = None) \/ (lb = 1 /\ prev = Some lbk) ->
+  rev (acc_chunks literal acc lb lbk chunks) = rev acc ++ body literal prev 0 (flat_map chunk_lines chunks ++ map Blank tks).
+Proof.
+  induction chunks as [|[[ks e] s] chunks IH]; intros tks literal acc lb lbk prev Hlb.
   - cbn [acc_chunks flat_map app]. rewrite <- (app_nil_r (map Blank tks)), body_blanks. cbn [body]. rewrite app_nil_r. reflexivity.
   - cbn [acc_chunks flat_map chunk_lines]. rewrite <- !app_assoc. rewrite body_blanks. cbn [app body Nat.add].
-    rewrite (IH tks _ 1 (Some (spaced e s))) by (right; split; [reflexivity|eexists; reflexivity]).
-    rewrite rev_app_distr, rev_involutive, nls_of_nat, rev_nls, <- !app_assoc. f_equal.
-    unfold line_text. change (spaces e) with (sps e). rewrite <- !app_assoc.
-    destruct Hlb as [[-> ->]|[-> [b ->]]]; cbn [sep negb andb N.to_nat].
-    + reflexivity.
-    + change (Pos.to_nat 1) with 1%nat. rewrite app_assoc, lfs_add. reflexivity.
+    rewrite (IH tks literal _ 1 _ (Some (spaced e s))) by (right; split; [reflexivity|rewrite is_blank_spaced; reflexivity]).
+    rewrite rev_app_distr, rev_involutive, (fold_sep_sep literal acc lb (length ks) lbk _ prev Hlb), is_blank_spaced.
+    unfold line_text. change (spaces e) with (sps e). rewrite <- !app_assoc. reflexivity.
 Qed.
 
 Lemma leading_blanks_map ks r : leading_blanks (map Blank ks ++ r) = (length ks + leading_blanks r)%nat.
@@ -684,14 +709,16 @@ Proof.
   - unfold has_text. rewrite !existsb_app. cbn [existsb is_text]. rewrite !orb_true_r. reflexivity.
 Qed.
 
-Theorem chunks_value c chunks tks acc : chunks <> [] ->
+Theorem chunks_value literal c chunks tks acc : chunks <> [] ->
   rev (match to_model c with Keep => nls (N.of_nat (length tks)) | _ => fun a => a end
-         (match to_model c with Strip => acc_chunks acc 0 chunks | _ => nls 1 (acc_chunks acc 0 chunks) end))
-  = rev acc ++ block_value true c (flat_map chunk_lines chunks ++ map Blank tks).
+         (match to_model c with
+          | Strip => acc_chunks literal acc 0 false chunks
+          | _ => nls 1 (acc_chunks literal acc 0 false chunks) end))
+  = rev acc ++ block_value literal c (flat_map chunk_lines chunks ++ map Blank tks).
 Proof.
   intros Hne. rewrite chomp_tail. unfold block_value.
   destruct (chunks_trailing chunks tks Hne) as [-> ->].
-  rewrite (acc_chunks_body chunks tks acc 0 None) by (left; split; reflexivity).
+  rewrite (acc_chunks_body chunks tks literal acc 0 false None) by (left; split; reflexivity).
   rewrite <- app_assoc. reflexivity.
 Qed.
 
@@ -747,7 +774,8 @@ Definition hdr_chars (c : chomp) (explicit : option nat) (digit_first : bool) : 
   let d := match explicit with Some m => [48 + N.of_nat m] | None => [] end in
   if digit_first then d ++ ch else ch ++ d.
 
-Lemma header_hdr_chars c explicit digit_first : header true c explicit digit_first = 124 :: hdr_chars c explicit digit_first.
+Lemma header_hdr_chars literal c explicit digit_first :
+  header literal c explicit digit_first = (if literal then 124 else 62) :: hdr_chars c explicit digit_first.
 Proof. reflexivity. Qed.
 
 Definition inc_of (explicit : option nat) : N := match explicit with Some d => N.of_nat d | None => 0 end.
@@ -766,13 +794,16 @@ Proof.
 Qed.
 
 Lemma bs_hd_spec : forall c explicit digit_first (rest : list chr) s lk m w start,
-  hd0 rest = 10 ->
+  hd0 rest = 10 \/ hd0 rest = 0 ->
   match explicit with Some d => (1 <= d <= 9)%nat | None => True end ->
   exists lk' w', (lk <= lk')%nat /\
   bs_hd (hd0 (hdr_chars c explicit digit_first ++ rest)) start (mv s (hdr_chars c explicit digit_first ++ rest) lk m w)
   = Ok ((to_model c, inc_of explicit), mv s rest lk' (mark_after m (hdr_chars c explicit digit_first)) w').
 Proof.
-  intros c explicit digit_first rest s lk m w start Hr Hd.
+  intros c explicit digit_first rest s lk m w start Hr0 Hd.
+  assert (Hr : is_digit (hd0 rest) = false /\ (hd0 rest =? 43) = false /\ (hd0 rest =? 45) = false).
+  { destruct Hr0 as [-> | ->]; repeat split. }
+  destruct Hr as [Hdig [H43 H45]].
   destruct explicit as [d|].
   - destruct (digit_facts d Hd) as [D1 [D2 [D3 [D4 [D5 D6]]]]]. cbn zeta in *.
     destruct c, digit_first; cbn [hdr_chars app to_model inc_of]; set (D := 48 + N.of_nat d) in *; unfold bs_hd; hd0c;
@@ -781,16 +812,15 @@ Proof.
         repeat (first [ mstep ltac:(apply skip_non_blank_mv); cbn [tl]
                       | mstep ltac:(apply look_mv)
                       | mstep ltac:(apply peek_mv); try hd0c ];
-                rewrite ?Hr, ?D1, ?D2, ?D3, ?D4, ?D5; evalb);
+                rewrite ?Hdig, ?H43, ?H45, ?D1, ?D2, ?D3, ?D4, ?D5; evalb);
         rewrite ?D5; reflexivity]; lia).
-  - assert (Hdig : is_digit 10 = false) by reflexivity.
-    destruct c, digit_first; cbn [hdr_chars app to_model inc_of]; unfold bs_hd; try hd0c; rewrite ?Hr, ?Hdig;
+  - destruct c, digit_first; cbn [hdr_chars app to_model inc_of]; unfold bs_hd; try hd0c; rewrite ?Hdig, ?H43, ?H45;
       cbn [mark_after]; evalb;
       (eexists; eexists; split; [|
         repeat (first [ mstep ltac:(apply skip_non_blank_mv); cbn [tl]
                       | mstep ltac:(apply look_mv)
                       | mstep ltac:(apply peek_mv); try hd0c ];
-                rewrite ?Hr, ?Hdig; evalb);
+                rewrite ?Hdig, ?H43, ?H45; evalb);
         reflexivity]; lia).
 Qed.
 
@@ -822,79 +852,146 @@ Proof.
   - left. reflexivity.
 Qed.
 
-Definition yields (value r' : list chr) (o : outcome (token * sc strin)) : Prop :=
-  exists sp s', o = Ok ((sp, TScalar Literal value), s') /\ si_chars (sc_in s') = r'.
+Definition style_of (literal : bool) : style := if literal then Literal else Folded.
+Definition yields (literal : bool) (value r' : list chr) (o : outcome (token * sc strin)) : Prop :=
+  exists sp s', o = Ok ((sp, TScalar (style_of literal) value), s') /\ si_chars (sc_in s') = r'.
 
 Lemma bind_P {A B} (P : outcome (B * sc strin) -> Prop) (m : MS A) (f : A -> MS B) (s : sc strin) a s' :
   m s = Ok (a, s') -> P (f a s') -> P (bind m f s).
 Proof. intros H1 H2. unfold bind. rewrite H1. exact H2. Qed.
 Ltac pstep tac := (eapply bind_P; [tac | cbv beta match]).
 
-Theorem literal_block_scalar : forall (s : sc strin) F c (explicit : option nat) (digit_first : bool)
-    (ck : chunk) (chunks : list chunk) (tks : list nat) (j : nat) (r' : list chr) (n : nat) pz inds,
-  let lines := flat_map chunk_lines (ck :: chunks) ++ map Blank tks in
-  si_chars (sc_in s) = render_block n true c explicit digit_first [] lines (EofRest (sps j ++ r')) ->
-  unroll_nb (sc_indents s) (sc_indent s) = (pz, inds) ->
-  n <> O -> Forall (chunk_ok F n) (ck :: chunks) ->
-  Forall (fun k => (k <= n)%nat) tks -> Forall (fun k => (k < F)%nat) tks -> (length tks < F)%nat ->
-  (j < n)%nat -> hd0 r' <> 32 -> is_break (hd0 r') = false -> (S (length chunks) < F)%nat ->
-  match explicit with
-  | Some d => (1 <= d <= 9)%nat /\ N.of_nat n = (if (0 <=? pz)%Z then Z.to_N (pz + Z.of_N (N.of_nat d)) else N.of_nat d)
-  | None => Z.to_N (pz + 1) <= N.of_nat n /\ (let '(ks, e, txt) := ck in e = O /\ txt <> [])
-  end ->
-  yields (block_value true c lines) r' (scan_block_scalar str_ops F true s).
+(* the tail of scan_block_scalar after the content loop, named *)
+Definition bs_finish (literal : bool) (chomp : chomping) (indent : N) (cstart : marker) (r : list chr * N * N) : MS token :=
+  let '(acc, lb, tb) := r in
+  z <- next_is str_ops is_z ;; k <- col ;;
+  let acc := match chomp with
+             | Strip => acc
+             | _ => let acc := nls lb acc in if z && (N.max indent 1 <=? k) then 10 :: acc else acc
+             end in
+  let acc := match chomp with Keep => nls tb acc | _ => acc end in
+  m <- mark ;;
+  ret ({| sp_start := cstart; sp_end := m |}, TScalar (if literal then Literal else Folded) (rev acc)).
+
+(* scan_block_scalar from the first line after the header on, named ([start]: the mark of the indicator) *)
+Definition bs_main (F : nat) (literal : bool) (start : marker) (chomp : chomping) (increment : N) : MS token :=
+  let style := if literal then Literal else Folded in
+  s <- get ;;
+  let indent0 := if 0 <? increment then
+                   (if (0 <=? sc_indent s)%Z then Z.to_N (sc_indent s + Z.of_N increment) else increment)
+                 else 0 in
+  ib <- (if indent0 =? 0 then
+           r <- skip_first_line_indent str_ops F F 0 0 ;;
+           let i := N.max (fst r) (Z.to_N (sc_indent s + 1)) in
+           ret (if (0 <? sc_indent s)%Z then N.max i 1 else i, snd r)
+         else b <- skip_block_scalar_indent str_ops F F indent0 0 ;; ret (indent0, b)) ;;
+  let '(indent, tbreaks) := ib in
+  z <- next_is str_ops is_z ;;
+  s <- get ;;
+  if z then
+    let contents :=
+      match chomp with
+      | Strip => 0
+      | _ => if m_line (sc_mark s) =? m_line start then 0
+             else match chomp with
+                  | Clip => 0
+                  | _ => tbreaks + (if 0 <? m_col (sc_mark s) then 1 else 0)
+                  end
+      end in
+    ret ({| sp_start := start; sp_end := sc_mark s |}, TScalar style (nls contents []))
+  else
+  wrong <- (if (m_col (sc_mark s) <? indent) && (sc_indent s <? Z.of_N (m_col (sc_mark s)))%Z then
+              look str_ops 4 ;;; di <- next_is_document_indicator str_ops ;;
+              ret (negb ((m_col (sc_mark s) =? 0) && di))
+            else ret false) ;;
+  if wrong then fail 83 (sc_mark s) else
+  s <- get ;;
+  r <- bs_loop F literal indent F [] 0 tbreaks false ;;
+  bs_finish literal chomp indent (sc_mark s) r.
+
+Lemma hdr_line c explicit digit_first m : m_line (mark_after m (hdr_chars c explicit digit_first)) = m_line m.
 Proof.
-  intros s F c explicit digit_first ck chunks tks j r' n pz inds lines Hchars Hun Hn Hch Htks HtksF HtksL Hj Hr Hrb HchL Hind.
+  assert (HD : forall d, (48 + N.of_nat d =? 10) = false) by (intros d; apply N.eqb_neq; lia).
+  destruct c, explicit as [d|], digit_first; cbn [hdr_chars app mark_after]; rewrite ?HD; reflexivity.
+Qed.
+
+(* the header line: indicators, then the line feed.  What remains is [bs_main] at the start of the next line. *)
+Lemma scan_header : forall (P : outcome (token * sc strin) -> Prop) (s : sc strin) F literal c (explicit : option nat)
+    (digit_first : bool) (BODY : list chr) pz inds,
+  si_chars (sc_in s) = header literal c explicit digit_first ++ 10 :: BODY ->
+  unroll_nb (sc_indents s) (sc_indent s) = (pz, inds) ->
+  F <> O -> hd0 BODY <> 9 ->
+  match explicit with Some d => (1 <= d <= 9)%nat | None => True end ->
+  (forall lk1 mh, lk1 <> O -> m_col mh = 0 -> m_line mh = m_line (sc_mark s) + 1 ->
+     P (bs_main F literal (sc_mark s) (to_model c) (inc_of explicit) (mv (set_indent pz inds s) BODY lk1 mh true))) ->
+  P (scan_block_scalar str_ops F literal s).
+Proof.
+  intros P s F literal c explicit digit_first BODY pz inds Hchars Hun HF0 Htab Hd Hk.
   rewrite <- (mv_self s). rewrite Hchars. clear Hchars.
-  unfold render_block. rewrite header_hdr_chars. cbn [app].
-  unfold lines at 2. rewrite flat_map_shift, render_chunks. rewrite <- app_assoc.
-  set (BODY := flat_map (chunk_text n) (ck :: chunks) ++ blank_lines tks ++ sps j ++ r').
+  rewrite header_hdr_chars. cbn [app].
   set (lk0 := si_look (sc_in s)). set (m0 := sc_mark s). set (w0 := sc_lws s).
-  assert (HF : exists F', F = S F').
-  { pose proof (Forall_inv Hch) as Hc. destruct ck as [[ks e] txt]. destruct Hc as [_ [_ [_ [_ [_ [_ Hl]]]]]].
-    destruct F; [lia|eexists; reflexivity]. }
+  assert (HF : exists F', F = S F') by (destruct F; [congruence|eexists; reflexivity]).
   destruct HF as [F' HF].
   unfold scan_block_scalar.
   pstep ltac:(apply mark_mv). pstep ltac:(apply skip_non_blank_mv). cbn [tl].
   pstep ltac:(apply unroll_mv; exact Hun).
   pstep ltac:(apply look_ch_mv).
   set (s1 := set_indent pz inds s).
-  assert (Hs1 : forall cs lk m w, sc_indent (mv s1 cs lk m w) = pz) by reflexivity.
-  assert (HB : hd0 (10 :: BODY) = 10) by reflexivity.
-  assert (Hd : match explicit with Some d => (1 <= d <= 9)%nat | None => True end) by (destruct explicit; tauto).
+  assert (HB : hd0 (10 :: BODY) = 10 \/ hd0 (10 :: BODY) = 0) by (left; reflexivity).
   destruct (bs_hd_spec c explicit digit_first (10 :: BODY) s1 (Nat.max lk0 1) (adv 1 m0) false m0 HB Hd) as [lk1 [w1 [Hle1 Hhd]]].
-  match goal with |- yields _ _ (bind ?blk ?k ?st) => change (yields (block_value true c lines) r' (bind (bs_hd (hd0 (hdr_chars c explicit digit_first ++ 10 :: BODY)) m0) k st)) end.
+  match goal with |- P (bind ?blk ?k ?st) => change (P (bind (bs_hd (hd0 (hdr_chars c explicit digit_first ++ 10 :: BODY)) m0) k st)) end.
   pstep ltac:(exact Hhd).
   pstep ltac:(rewrite HF; apply skip_ws_to_eol_lf). pstep ltac:(apply look_mv). pstep ltac:(apply peek_mv). hd0c.
   change (is_breakz 10) with true. change (is_break 10) with true. cbv match. cbn [negb].
   pstep ltac:(mstep ltac:(apply look_mv); mstep ltac:(apply skip_break_lf); reflexivity).
   pstep ltac:(apply look_ch_mv).
-  assert (Htab : (hd0 BODY =? 9) = false).
-  { destruct (hd0_chunks n (ck :: chunks) (blank_lines tks ++ sps j ++ r')) as [E|E]; [discriminate|exact Hn| |];
-      fold BODY in E; rewrite E; reflexivity. }
-  rewrite Htab. pstep ltac:(apply get_mv). rewrite !Hs1.
-  destruct ck as [[ks1 e1] txt1].
-  pose proof (Forall_inv Hch) as Hc1. pose proof (Forall_inv_tail Hch) as Hch'. destruct Hc1 as [Hks1 [Hnb1 [Hhd1 [Hne1 [Hks1F [Hks1L Hlen1]]]]]].
-  set (REST := flat_map (chunk_text n) chunks ++ blank_lines tks ++ sps j ++ r').
-  assert (EBODY : BODY = blank_lines ks1 ++ sps (n + e1) ++ (txt1 ++ 10 :: REST)).
-  { subst BODY REST. cbn [flat_map chunk_text]. rewrite <- !app_assoc. reflexivity. }
-  rewrite EBODY.
-  set (mh := nlm (mark_after (adv 1 m0) (hdr_chars c explicit digit_first))).
-  assert (Hmh : m_col mh = 0) by reflexivity.
-  assert (Hhd' : hd0 (txt1 ++ 10 :: REST) <> 32).
-  { destruct txt1 as [|c0 t]; [intro H; change (10 = 32) in H; discriminate|exact Hhd1]. }
-  match goal with |- yields _ _ (bind ?ib ?k ?st) =>
+  destruct (N.eqb_spec (hd0 BODY) 9) as [E|_]; [contradiction|].
+  apply Hk; [lia|reflexivity|].
+  cbn [nlm m_line]. rewrite hdr_line. reflexivity.
+Qed.
+
+(* From the indicator to the first content line: header, header line break, leading blank lines, indentation
+   (given or detected).  What remains is the content loop at the first content character, and the tail.
+   [TAIL] is what follows the first content line: nothing, or a line feed and more. *)
+Lemma scan_to_loop : forall (P : outcome (token * sc strin) -> Prop) (s : sc strin) F literal c (explicit : option nat)
+    (digit_first : bool) (ks1 : list nat) (e1 : nat) (txt1 TAIL : list chr) (n : nat) pz inds,
+  si_chars (sc_in s) = header literal c explicit digit_first ++ 10 :: blank_lines ks1 ++ sps (n + e1) ++ txt1 ++ TAIL ->
+  unroll_nb (sc_indents s) (sc_indent s) = (pz, inds) ->
+  n <> O -> chunk_ok F n (ks1, e1, txt1) -> (TAIL = [] \/ hd0 TAIL = 10) ->
+  match explicit with
+  | Some d => (1 <= d <= 9)%nat /\ N.of_nat n = (if (0 <=? pz)%Z then Z.to_N (pz + Z.of_N (N.of_nat d)) else N.of_nat d)
+  | None => Z.to_N (pz + 1) <= N.of_nat n /\ e1 = O /\ txt1 <> []
+  end ->
+  (forall s1 lk2 m2, lk2 <> O -> m_col m2 = N.of_nat n ->
+     P ((r <- bs_loop F literal (N.of_nat n) F [] 0 (N.of_nat (length ks1)) false ;;
+         bs_finish literal (to_model c) (N.of_nat n) m2 r) (mv s1 ((sps e1 ++ txt1) ++ TAIL) lk2 m2 true))) ->
+  P (scan_block_scalar str_ops F literal s).
+Proof.
+  intros P s F literal c explicit digit_first ks1 e1 txt1 TAIL n pz inds Hchars Hun Hn Hc1 HT Hind Hk.
+  destruct Hc1 as [Hks1 [Hnb1 [Hhd1 [Hne1 [Hks1F [Hks1L Hlen1]]]]]].
+  apply (scan_header P s F literal c explicit digit_first (blank_lines ks1 ++ sps (n + e1) ++ txt1 ++ TAIL) pz inds); auto.
+  { lia. }
+  { destruct ks1 as [|[|k0] ks1]; [destruct n; [congruence|]| |]; intro H; cbv in H; discriminate H. }
+  { destruct explicit; tauto. }
+  intros lk1 mh Hlk1 Hmh Hline.
+  set (s1 := set_indent pz inds s).
+  assert (Hs1 : forall cs lk m w, sc_indent (mv s1 cs lk m w) = pz) by reflexivity.
+  unfold bs_main. pstep ltac:(apply get_mv). rewrite !Hs1.
+  assert (Hhd' : hd0 (txt1 ++ TAIL) <> 32).
+  { destruct txt1 as [|c0 t]; [|exact Hhd1]. cbn [app].
+    destruct HT as [->|E]; [intro H; cbv in H; discriminate H|rewrite E; discriminate]. }
+  match goal with |- P (bind ?ib ?k ?st) =>
     assert (Hib : exists lk2, lk2 <> O /\
               ib st = Ok ((N.of_nat n, N.of_nat (length ks1)),
-                          mv s1 ((sps e1 ++ txt1) ++ 10 :: REST) lk2 (mark_after mh (blank_lines ks1 ++ sps n)) true))
+                          mv s1 ((sps e1 ++ txt1) ++ TAIL) lk2 (mark_after mh (blank_lines ks1 ++ sps n)) true))
   end.
   { destruct explicit as [d|]; cbn [inc_of].
     - destruct Hind as [Hd9 Hind]. rewrite <- Hind.
       destruct (N.ltb_spec 0 (N.of_nat d)) as [_|Hbad]; [|lia].
       destruct (N.eqb_spec (N.of_nat n) 0) as [Hbad|_]; [lia|].
-      destruct (skip_block_scalar_indent_spec ks1 (n + e1) (txt1 ++ 10 :: REST) F F (N.of_nat n) 0 s1
-                  (Nat.max (Nat.max (Nat.max (Nat.max lk1 1) 1) 2) 1) mh) as [lk2 [Hle2 [Hne2 Hs]]]; auto.
-      { apply Forall_impl with (2 := Hks1). intros k Hk. lia. }
+      destruct (skip_block_scalar_indent_spec ks1 (n + e1) (txt1 ++ TAIL) F F (N.of_nat n) 0 s1 lk1 mh)
+        as [lk2 [Hle2 [Hne2 Hs]]]; auto.
+      { apply Forall_impl with (2 := Hks1). intros k Hk'. lia. }
       { destruct Hne1 as [He|Hs]; [left; lia|right].
         rewrite hd0_app_ne by exact Hs. exact (proj2 (breakz_parts _ (nobreak_hd0 _ Hnb1 Hs))). }
       { constructor; [lia|exact Hks1F]. }
@@ -904,15 +1001,14 @@ Proof.
       rewrite <- app_assoc. reflexivity.
     - destruct Hind as [Hpz [He1 Htx1]]. subst e1. change (0 <? 0) with false. cbv match. change (0 =? 0) with true. cbv match.
       rewrite Nat.add_0_r.
-      assert (Hnb' : is_break (hd0 (txt1 ++ 10 :: REST)) = false).
+      assert (Hnb' : is_break (hd0 (txt1 ++ TAIL)) = false).
       { rewrite hd0_app_ne by exact Htx1. exact (proj2 (breakz_parts _ (nobreak_hd0 _ Hnb1 Htx1))). }
-      destruct (skip_first_line_indent_spec ks1 n (txt1 ++ 10 :: REST) F F 0 0 s1
-                  (Nat.max (Nat.max (Nat.max (Nat.max lk1 1) 1) 2) 1) mh) as [lk2 [Hle2 [Hne2 Hs]]]; auto.
+      destruct (skip_first_line_indent_spec ks1 n (txt1 ++ TAIL) F F 0 0 s1 lk1 mh) as [lk2 [Hle2 [Hne2 Hs]]]; auto.
       { constructor; [lia|exact Hks1F]. }
       exists lk2. split; [exact Hne2|].
       mstep ltac:(exact Hs). cbn [fst snd]. rewrite N.add_0_l.
       assert (Hmax : maxl ks1 n = n).
-      { clear - Hks1. induction Hks1 as [|k ks Hk _ IH]; [reflexivity|]. cbn [maxl fold_right]. fold (maxl ks n). lia. }
+      { clear - Hks1. induction Hks1 as [|k ks Hk' _ IH]; [reflexivity|]. cbn [maxl fold_right]. fold (maxl ks n). lia. }
       rewrite Hmax.
       replace (if (0 <? pz)%Z then N.max (N.max (N.max 0 (N.of_nat n)) (Z.to_N (pz + 1))) 1
                else N.max (N.max 0 (N.of_nat n)) (Z.to_N (pz + 1))) with (N.of_nat n)
@@ -930,14 +1026,52 @@ Proof.
   rewrite (proj1 (breakz_parts _ (nobreak_hd0 _ Hnbt Hne'))).
   pstep ltac:(apply get_mv). rewrite !Hmk, !Hs1, Hcol2, N.ltb_irrefl. cbn [andb].
   pstep ltac:(reflexivity). pstep ltac:(apply get_mv). rewrite !Hmk.
-  match goal with |- yields _ _ (bind (?g F [] 0 ?tb false) ?k ?st) =>
-    change (yields (block_value true c lines) r' (bind (bs_loop F true (N.of_nat n) F [] 0 tb false) k st)) end.
-  replace (bs_loop F true (N.of_nat n) F) with (bs_loop F true (N.of_nat n) (S F')) by (rewrite HF; reflexivity).
-  assert (Hlen : (length (sps e1 ++ txt1) < F)%nat) by (rewrite app_length; unfold sps; rewrite repeat_length; lia).
-  destruct (bs_loop_chunks chunks tks j r' F n F' (rev (sps e1 ++ txt1) ++ nls (N.of_nat (length ks1)) (nls 0 []))
+  exact (Hk s1 lk2 m2 Hne2 Hcol2).
+Qed.
+
+Lemma chunk_content_facts F n ks e (txt : list chr) : chunk_ok F n (ks, e, txt) ->
+  sps e ++ txt <> [] /\ nobreak (sps e ++ txt) /\ (length (sps e ++ txt) < F)%nat.
+Proof.
+  intros [_ [Hnb [_ [Hne [_ [_ Hlen]]]]]]. split; [|split].
+  - destruct Hne as [He|Hs']; [destruct e; [congruence|discriminate]|destruct e; [exact Hs'|discriminate]].
+  - apply nobreak_sps_app; exact Hnb.
+  - rewrite app_length; unfold sps; rewrite repeat_length; lia.
+Qed.
+
+(* every line terminated by a line feed, then a less indented line (or the end of the input) *)
+Theorem block_scalar_chunks : forall (s : sc strin) F literal c (explicit : option nat) (digit_first : bool)
+    (ck : chunk) (chunks : list chunk) (tks : list nat) (j : nat) (r' : list chr) (n : nat) pz inds,
+  let lines := flat_map chunk_lines (ck :: chunks) ++ map Blank tks in
+  si_chars (sc_in s) = render_block n literal c explicit digit_first [] lines (EofRest (sps j ++ r')) ->
+  unroll_nb (sc_indents s) (sc_indent s) = (pz, inds) ->
+  n <> O -> Forall (chunk_ok F n) (ck :: chunks) ->
+  Forall (fun k => (k <= n)%nat) tks -> Forall (fun k => (k < F)%nat) tks -> (length tks < F)%nat ->
+  (j < n)%nat -> hd0 r' <> 32 -> is_break (hd0 r') = false -> (S (length chunks) < F)%nat ->
+  match explicit with
+  | Some d => (1 <= d <= 9)%nat /\ N.of_nat n = (if (0 <=? pz)%Z then Z.to_N (pz + Z.of_N (N.of_nat d)) else N.of_nat d)
+  | None => Z.to_N (pz + 1) <= N.of_nat n /\ (let '(ks, e, txt) := ck in e = O /\ txt <> [])
+  end ->
+  yields literal (block_value literal c lines) r' (scan_block_scalar str_ops F literal s).
+Proof.
+  intros s F literal c explicit digit_first ck chunks tks j r' n pz inds lines Hchars Hun Hn Hch Htks HtksF HtksL Hj Hr Hrb HchL Hind.
+  destruct ck as [[ks1 e1] txt1].
+  pose proof (Forall_inv Hch) as Hc1. pose proof (Forall_inv_tail Hch) as Hch'.
+  set (REST := flat_map (chunk_text n) chunks ++ blank_lines tks ++ sps j ++ r').
+  apply (scan_to_loop _ s F literal c explicit digit_first ks1 e1 txt1 (10 :: REST) n pz inds); auto.
+  { rewrite Hchars. unfold render_block. cbn [app]. unfold lines. rewrite flat_map_shift, render_chunks.
+    subst REST. cbn [flat_map chunk_text]. rewrite <- !app_assoc. reflexivity. }
+  intros s1 lk2 m2 Hne2 Hcol2.
+  destruct (chunk_content_facts _ _ _ _ _ Hc1) as [Hne' [Hnbt Hlen]].
+  assert (HnF : (n < F)%nat) by (destruct Hc1 as [_ [_ [_ [_ [_ [_ Hl]]]]]]; lia).
+  assert (HF : exists F', F = S F') by (destruct F; [lia|eexists; reflexivity]).
+  destruct HF as [F' HF].
+  replace (bs_loop F literal (N.of_nat n) F) with (bs_loop F literal (N.of_nat n) (S F')) by (rewrite HF; reflexivity).
+  destruct (bs_loop_chunks chunks tks j r' F literal n F'
+              (rev (sps e1 ++ txt1) ++ fold_sep literal [] 0 (N.of_nat (length ks1)) false (is_blank (hd0 (sps e1 ++ txt1))))
               (is_blank (hd0 (sps e1 ++ txt1))) s1 (Nat.max lk2 2) (nlm (mark_after m2 (sps e1 ++ txt1))))
     as [lk3 [Hle3 [Hne3 Hloop]]]; auto; try lia.
   pstep ltac:(rewrite bs_loop_round; [exact Hloop|exact Hnbt|exact Hne'|exact Hn|exact Hcol2|exact Hlen]).
+  unfold bs_finish.
   pstep ltac:(apply next_is_mv). pstep ltac:(apply col_mv). pstep ltac:(apply mark_mv).
   assert (Hcolend : forall m, m_col m = 0 ->
             m_col (mark_after m (flat_map (chunk_text n) chunks ++ blank_lines tks ++ sps j)) = N.of_nat j).
@@ -946,15 +1080,191 @@ Proof.
     - cbn [flat_map]. rewrite <- app_assoc, mark_after_app, mark_after_chunk. apply IH. reflexivity. }
   rewrite Hcolend by reflexivity.
   destruct (N.leb_spec (N.max (N.of_nat n) 1) (N.of_nat j)) as [Hbad|_]; [lia|]. rewrite andb_false_r.
-  assert (Eval : block_value true c lines =
+  assert (Eval : block_value literal c lines =
                  rev (match to_model c with Keep => nls (N.of_nat (length tks)) | _ => fun a => a end
                         (match to_model c with
-                         | Strip => acc_chunks [] 0 ((ks1, e1, txt1) :: chunks)
-                         | _ => nls 1 (acc_chunks [] 0 ((ks1, e1, txt1) :: chunks)) end))).
-  { rewrite chunks_value by discriminate. reflexivity. }
+                         | Strip => acc_chunks literal [] 0 false ((ks1, e1, txt1) :: chunks)
+                         | _ => nls 1 (acc_chunks literal [] 0 false ((ks1, e1, txt1) :: chunks)) end))).
+  { unfold lines. rewrite chunks_value by discriminate. reflexivity. }
   rewrite Eval. unfold yields. eexists. eexists. split.
   - destruct c; reflexivity.
   - reflexivity.
+Qed.
+
+(* ------------------------------------------------------------------------------------------ *)
+(* the end of the input right after the last content line (no final line break)                *)
+(* ------------------------------------------------------------------------------------------ *)
+Definition chunk_text_nolf (n : nat) (c : chunk) : list chr :=
+  let '(ks, e, s) := c in blank_lines ks ++ sps (n + e) ++ s.
+
+Lemma bs_loop_round_eof : forall (txt : list chr) F literal n f acc lb tb lbk s lk m w,
+  nobreak txt -> txt <> [] -> n <> O -> m_col m = N.of_nat n -> (length txt < F)%nat ->
+  bs_loop F literal (N.of_nat n) (S f) acc lb tb lbk (mv s (txt ++ []) lk m w)
+  = Ok ((rev txt ++ fold_sep literal acc lb tb lbk (is_blank (hd0 txt)), 0, 0),
+        mv s [] (Nat.max lk 2) (mark_after m txt) w).
+Proof.
+  intros txt F literal n f acc lb tb lbk s lk m w Hnb Hne Hn Hcol HF.
+  cbn [bs_loop].
+  mstep ltac:(apply col_mv). mstep ltac:(apply next_is_mv).
+  rewrite Hcol, N.eqb_refl. rewrite (hd0_app_ne txt) by exact Hne.
+  destruct (breakz_parts _ (nobreak_hd0 _ Hnb Hne)) as [Hz Hb]. rewrite Hz. cbn [negb orb].
+  destruct (N.eqb_spec (N.of_nat n) 0) as [E|_]; [lia|].
+  mstep ltac:(reflexivity). mstep ltac:(apply next_is_mv). rewrite (hd0_app_ne txt) by exact Hne.
+  fold (fold_sep literal acc lb tb lbk (is_blank (hd0 txt))).
+  mstep ltac:(apply content_line_spec; [exact Hnb|reflexivity|exact HF]).
+  mstep ltac:(apply look_mv). mstep ltac:(apply next_is_mv). reflexivity.
+Qed.
+
+Lemma col_after_text (txt : list chr) m : nobreak txt -> m_col (mark_after m txt) = m_col m + N.of_nat (length txt).
+Proof. intros H. rewrite (mark_after_nolf _ (nobreak_nolf _ H)). reflexivity. Qed.
+
+Lemma bs_loop_chunks_eof : forall (cs : list chunk) (cl : chunk) F literal n f acc lbk s lk m,
+  n <> O -> Forall (chunk_ok F n) (cs ++ [cl]) -> (n < F)%nat ->
+  m_col m = 0 -> (length cs < f)%nat ->
+  exists lk' mend, lk' <> O /\ N.of_nat n <= m_col mend /\
+  (tb <- skip_block_scalar_indent str_ops F F (N.of_nat n) 0 ;; bs_loop F literal (N.of_nat n) f acc 1 tb lbk)
+    (mv s (flat_map (chunk_text n) cs ++ chunk_text_nolf n cl ++ []) lk m true)
+  = Ok ((acc_chunks literal acc 1 lbk (cs ++ [cl]), 0, 0), mv s [] lk' mend true).
+Proof.
+  induction cs as [|[[ks e] txt] cs IH]; intros cl F literal n f acc lbk s lk m Hn Hch HnF Hcol Hf.
+  - destruct cl as [[ks e] txt]. cbn [flat_map app chunk_text_nolf] in *.
+    pose proof (Forall_inv Hch) as Hc. destruct (chunk_content_facts _ _ _ _ _ Hc) as [Hne' [Hnbt Hlen']].
+    destruct Hc as [Hks [Hnb [Hhd [Hne [HksF [HksL Hlen]]]]]].
+    rewrite <- !app_assoc.
+    assert (Hhd' : hd0 (txt ++ []) <> 32).
+    { destruct txt as [|c0 t]; [intro H; cbv in H; discriminate H|exact Hhd]. }
+    assert (Hlast : N.of_nat n < N.of_nat (n + e) \/ is_break (hd0 (txt ++ [])) = false).
+    { destruct Hne as [He|Hs]; [left; lia|right].
+      rewrite hd0_app_ne by exact Hs. exact (proj2 (breakz_parts _ (nobreak_hd0 _ Hnb Hs))). }
+    destruct (skip_block_scalar_indent_spec ks (n + e) (txt ++ []) F F (N.of_nat n) 0 s lk m)
+      as [lk1 [Hle1 [Hne1 Hs]]]; auto.
+    { apply Forall_impl with (2 := Hks). intros k Hk. lia. }
+    { constructor; [lia|exact HksF]. }
+    rewrite Nat2N.id in Hs. replace (Nat.min (n + e) n) with n in Hs by lia.
+    replace (n + e - n)%nat with e in Hs by lia.
+    destruct f as [|f]; [cbn in Hf; lia|].
+    set (m1 := mark_after m (blank_lines ks ++ sps n)) in *.
+    assert (Hcol1 : m_col m1 = N.of_nat n) by (apply col_after_blank_lines; exact Hcol).
+    exists (Nat.max lk1 2), (mark_after m1 (sps e ++ txt)). split; [lia|]. split.
+    { rewrite col_after_text by exact Hnbt. lia. }
+    mstep ltac:(exact Hs). rewrite N.add_0_l.
+    replace (sps e ++ txt ++ []) with ((sps e ++ txt) ++ []) by (rewrite <- app_assoc; reflexivity).
+    rewrite bs_loop_round_eof; auto.
+  - pose proof (Forall_inv Hch) as Hc. pose proof (Forall_inv_tail Hch) as Hch'. fold (cs ++ [cl]) in Hch'.
+    destruct (chunk_content_facts _ _ _ _ _ Hc) as [Hne' [Hnbt Hlen']].
+    destruct Hc as [Hks [Hnb [Hhd [Hne [HksF [HksL Hlen]]]]]].
+    cbn [flat_map]. fold (flat_map (chunk_text n) cs).
+    set (REST := flat_map (chunk_text n) cs ++ chunk_text_nolf n cl ++ []).
+    assert (Etxt : (chunk_text n (ks, e, txt) ++ flat_map (chunk_text n) cs) ++ chunk_text_nolf n cl ++ []
+                   = blank_lines ks ++ sps (n + e) ++ (txt ++ 10 :: REST)).
+    { cbn [chunk_text]. subst REST. rewrite <- !app_assoc. reflexivity. }
+    rewrite Etxt.
+    assert (Hhd' : hd0 (txt ++ 10 :: REST) <> 32).
+    { destruct txt as [|c t]; [intro H; change (10 = 32) in H; discriminate|exact Hhd]. }
+    assert (Hlast : N.of_nat n < N.of_nat (n + e) \/ is_break (hd0 (txt ++ 10 :: REST)) = false).
+    { destruct Hne as [He|Hs]; [left; lia|right].
+      rewrite hd0_app_ne by exact Hs. exact (proj2 (breakz_parts _ (nobreak_hd0 _ Hnb Hs))). }
+    destruct (skip_block_scalar_indent_spec ks (n + e) (txt ++ 10 :: REST) F F (N.of_nat n) 0 s lk m)
+      as [lk1 [Hle1 [Hne1 Hs]]]; auto.
+    { apply Forall_impl with (2 := Hks). intros k Hk. lia. }
+    { constructor; [lia|exact HksF]. }
+    rewrite Nat2N.id in Hs. replace (Nat.min (n + e) n) with n in Hs by lia.
+    replace (n + e - n)%nat with e in Hs by lia.
+    destruct f as [|f]; [cbn in Hf; lia|].
+    set (m1 := mark_after m (blank_lines ks ++ sps n)) in *.
+    assert (Hcol1 : m_col m1 = N.of_nat n) by (apply col_after_blank_lines; exact Hcol).
+    destruct (IH cl F literal n f
+                 (rev (sps e ++ txt) ++ fold_sep literal acc 1 (N.of_nat (length ks)) lbk (is_blank (hd0 (sps e ++ txt))))
+                 (is_blank (hd0 (sps e ++ txt))) s (Nat.max lk1 2) (nlm (mark_after m1 (sps e ++ txt))))
+      as [lk' [mend [Hne2 [Hcm Hrec]]]]; auto.
+    { cbn [length] in Hf. lia. }
+    exists lk', mend. split; [exact Hne2|]. split; [exact Hcm|].
+    mstep ltac:(exact Hs). rewrite N.add_0_l.
+    replace (sps e ++ txt ++ 10 :: REST) with ((sps e ++ txt) ++ 10 :: REST) by (rewrite <- app_assoc; reflexivity).
+    rewrite bs_loop_round; auto.
+Qed.
+
+Lemma render_chunks_eof n : forall (cs : list chunk) (cl : chunk),
+  flat_map (fun l => LF :: render_line n l) (flat_map chunk_lines (cs ++ [cl]))
+  = 10 :: flat_map (chunk_text n) cs ++ chunk_text_nolf n cl.
+Proof.
+  assert (H1 : forall ks e (s : list chr) X,
+             flat_map (fun l => LF :: render_line n l) (map Blank ks ++ [Text e s]) ++ X
+             = 10 :: blank_lines ks ++ sps (n + e) ++ s ++ X).
+  { intros ks e s X. rewrite flat_map_app. cbn [flat_map render_line]. rewrite app_nil_r, <- app_assoc. cbn [app].
+    rewrite flat_map_shift, render_blanks. change (spaces (n + e)) with (sps (n + e)). rewrite <- !app_assoc. reflexivity. }
+  induction cs as [|[[ks e] s] cs IH]; intros cl.
+  - destruct cl as [[ks e] s]. cbn [app flat_map chunk_lines chunk_text_nolf]. rewrite app_nil_r.
+    rewrite <- (app_nil_r (flat_map _ (map Blank ks ++ [Text e s]))), H1, !app_nil_r. reflexivity.
+  - cbn [app flat_map chunk_lines chunk_text]. rewrite flat_map_app, IH, H1. rewrite <- !app_assoc. reflexivity.
+Qed.
+
+Theorem block_scalar_chunks_eof : forall (s : sc strin) F literal c (explicit : option nat) (digit_first : bool)
+    (cs : list chunk) (cl : chunk) (n : nat) pz inds,
+  let lines := flat_map chunk_lines (cs ++ [cl]) in
+  si_chars (sc_in s) = render_block n literal c explicit digit_first [] lines EofNone ->
+  unroll_nb (sc_indents s) (sc_indent s) = (pz, inds) ->
+  n <> O -> Forall (chunk_ok F n) (cs ++ [cl]) -> (S (length cs) < F)%nat ->
+  match explicit with
+  | Some d => (1 <= d <= 9)%nat /\ N.of_nat n = (if (0 <=? pz)%Z then Z.to_N (pz + Z.of_N (N.of_nat d)) else N.of_nat d)
+  | None => Z.to_N (pz + 1) <= N.of_nat n /\ (let '(ks, e, txt) := hd cl cs in e = O /\ txt <> [])
+  end ->
+  yields literal (block_value literal c lines) [] (scan_block_scalar str_ops F literal s).
+Proof.
+  intros s F literal c explicit digit_first cs cl n pz inds lines Hchars Hun Hn Hch HchL Hind.
+  assert (Eval : block_value literal c lines =
+                 rev (match to_model c with Keep => nls (N.of_nat 0) | _ => fun a => a end
+                        (match to_model c with
+                         | Strip => acc_chunks literal [] 0 false (cs ++ [cl])
+                         | _ => nls 1 (acc_chunks literal [] 0 false (cs ++ [cl])) end))).
+  { assert (Hne0 : cs ++ [cl] <> []) by (destruct cs; discriminate).
+    pose proof (chunks_value literal c (cs ++ [cl]) [] [] Hne0) as E.
+    cbn [map rev app length] in E. rewrite app_nil_r in E. symmetry. exact E. }
+  unfold render_block in Hchars. rewrite app_nil_r in Hchars. cbn [app] in Hchars. unfold lines in Hchars.
+  rewrite render_chunks_eof in Hchars.
+  assert (HnF : (n < F)%nat).
+  { assert (Hc : chunk_ok F n cl) by (apply Forall_app in Hch; destruct Hch as [_ H]; exact (Forall_inv H)).
+    destruct cl as [[ks e] txt]. destruct Hc as [_ [_ [_ [_ [_ [_ Hl]]]]]]. lia. }
+  assert (HF : exists F', F = S F') by (destruct F; [lia|eexists; reflexivity]).
+  destruct HF as [F' HF].
+  destruct cs as [|[[ks1 e1] txt1] cs].
+  - (* a single content line *)
+    destruct cl as [[ks1 e1] txt1]. cbn [app flat_map chunk_text_nolf hd] in *.
+    pose proof (Forall_inv Hch) as Hc1.
+    apply (scan_to_loop _ s F literal c explicit digit_first ks1 e1 txt1 [] n pz inds); auto.
+    { rewrite Hchars, !app_nil_r. reflexivity. }
+    intros s1 lk2 m2 Hne2 Hcol2.
+    destruct (chunk_content_facts _ _ _ _ _ Hc1) as [Hne' [Hnbt Hlen]].
+    replace (bs_loop F literal (N.of_nat n) F) with (bs_loop F literal (N.of_nat n) (S F')) by (rewrite HF; reflexivity).
+    pstep ltac:(apply bs_loop_round_eof; auto).
+    unfold bs_finish.
+    pstep ltac:(apply next_is_mv). pstep ltac:(apply col_mv). pstep ltac:(apply mark_mv).
+    change (is_z (hd0 [])) with true. rewrite col_after_text by exact Hnbt.
+    destruct (N.leb_spec (N.max (N.of_nat n) 1) (m_col m2 + N.of_nat (length (sps e1 ++ txt1)))) as [_|Hbad]; [|lia].
+    rewrite Eval. unfold yields. eexists. eexists. split.
+    + destruct c; reflexivity.
+    + reflexivity.
+  - cbn [app flat_map hd] in *.
+    pose proof (Forall_inv Hch) as Hc1. pose proof (Forall_inv_tail Hch) as Hch'.
+    set (REST := flat_map (chunk_text n) cs ++ chunk_text_nolf n cl ++ []).
+    apply (scan_to_loop _ s F literal c explicit digit_first ks1 e1 txt1 (10 :: REST) n pz inds); auto.
+    { rewrite Hchars. subst REST. cbn [chunk_text]. rewrite <- !app_assoc, !app_nil_r. reflexivity. }
+    intros s1 lk2 m2 Hne2 Hcol2.
+    destruct (chunk_content_facts _ _ _ _ _ Hc1) as [Hne' [Hnbt Hlen]].
+    replace (bs_loop F literal (N.of_nat n) F) with (bs_loop F literal (N.of_nat n) (S F')) by (rewrite HF; reflexivity).
+    destruct (bs_loop_chunks_eof cs cl F literal n F'
+                (rev (sps e1 ++ txt1) ++ fold_sep literal [] 0 (N.of_nat (length ks1)) false (is_blank (hd0 (sps e1 ++ txt1))))
+                (is_blank (hd0 (sps e1 ++ txt1))) s1 (Nat.max lk2 2) (nlm (mark_after m2 (sps e1 ++ txt1))))
+      as [lk3 [mend [Hne3 [Hcm Hloop]]]]; auto.
+    { cbn [length] in HchL. lia. }
+    pstep ltac:(rewrite bs_loop_round; [exact Hloop|exact Hnbt|exact Hne'|exact Hn|exact Hcol2|exact Hlen]).
+    unfold bs_finish.
+    pstep ltac:(apply next_is_mv). pstep ltac:(apply col_mv). pstep ltac:(apply mark_mv).
+    change (is_z (hd0 [])) with true.
+    destruct (N.leb_spec (N.max (N.of_nat n) 1) (m_col mend)) as [_|Hbad]; [|lia].
+    rewrite Eval. unfold yields. eexists. eexists. split.
+    + destruct c; reflexivity.
+    + reflexivity.
 Qed.
 
 (* ------------------------------------------------------------------------------------------ *)
@@ -1034,9 +1344,9 @@ Qed.
 (* (T4) literal style, explicit or auto-detected indentation, any chomping: every list of content lines (of any extra
    indentation, whitespace-only content lines included) and blank lines, with at least one content line, each line
    terminated by a line feed, followed by a less indented line or the end of the input *)
-Theorem literal_block_scalar_lines : forall (s : sc strin) F c (explicit : option nat) (digit_first : bool)
+Theorem block_scalar_lines : forall (s : sc strin) F literal c (explicit : option nat) (digit_first : bool)
     (lines : list bline) (j : nat) (r' : list chr) (n : nat) pz inds,
-  si_chars (sc_in s) = render_block n true c explicit digit_first [] lines (EofRest (sps j ++ r')) ->
+  si_chars (sc_in s) = render_block n literal c explicit digit_first [] lines (EofRest (sps j ++ r')) ->
   unroll_nb (sc_indents s) (sc_indent s) = (pz, inds) ->
   n <> O -> Forall (line_ok F n) lines -> (S (length lines) < F)%nat -> has_text lines = true ->
   (j < n)%nat -> hd0 r' <> 32 -> is_break (hd0 r') = false -> (r' = [] -> j = O) ->
@@ -1044,21 +1354,180 @@ Theorem literal_block_scalar_lines : forall (s : sc strin) F c (explicit : optio
   | Some d => (1 <= d <= 9)%nat /\ N.of_nat n = (if (0 <=? pz)%Z then Z.to_N (pz + Z.of_N (N.of_nat d)) else N.of_nat d)
   | None => Z.to_N (pz + 1) <= N.of_nat n /\ exists txt, first_text lines = Some (O, txt) /\ txt <> []
   end ->
-  yields (block_value true c lines) r' (scan_block_scalar str_ops F true s).
+  yields literal (block_value literal c lines) r' (scan_block_scalar str_ops F literal s).
 Proof.
-  intros s F c explicit digit_first lines j r' n pz inds Hchars Hun Hn Hls Hlen Htext Hj Hr Hrb _ Hind.
+  intros s F literal c explicit digit_first lines j r' n pz inds Hchars Hun Hn Hls Hlen Htext Hj Hr Hrb _ Hind.
   destruct (split_lines lines []) as [cs t] eqn:E.
   pose proof (split_lines_spec lines [] cs t E) as Hsp. cbn [rev map app] in Hsp.
   destruct (split_lines_ok F n lines [] cs t E Hls) as [Hcs [Ht1 [Ht2 [Ht3 Ht4]]]]; [constructor|cbn [length]; lia|].
   pose proof (split_lines_text lines [] Htext) as Hne. rewrite E in Hne. cbn [fst] in Hne.
   destruct cs as [|ck cs]; [congruence|].
   assert (Hft0 := Hind). rewrite Hsp in Hchars |- *.
-  apply (literal_block_scalar s F c explicit digit_first ck cs t j r' n pz inds); auto.
+  apply (block_scalar_chunks s F literal c explicit digit_first ck cs t j r' n pz inds); auto.
   - cbn [length] in Ht4. lia.
   - destruct explicit as [d|]; [exact Hind|].
     destruct Hind as [Hpz [txt [Hft Htx]]]. split; [exact Hpz|].
     destruct (split_lines_first lines [] O txt Hft) as [ks' [cs' [t' E']]].
     rewrite E in E'. inversion E'; subst. split; [reflexivity|exact Htx].
+Qed.
+
+
+(* the same without a final line break: the input ends right after the last content line *)
+Theorem block_scalar_lines_eof : forall (s : sc strin) F literal c (explicit : option nat) (digit_first : bool)
+    (lines : list bline) (n : nat) pz inds,
+  si_chars (sc_in s) = render_block n literal c explicit digit_first [] lines EofNone ->
+  unroll_nb (sc_indents s) (sc_indent s) = (pz, inds) ->
+  n <> O -> Forall (line_ok F n) lines -> (S (length lines) < F)%nat -> has_text lines = true ->
+  trailing_blanks lines = O ->
+  match explicit with
+  | Some d => (1 <= d <= 9)%nat /\ N.of_nat n = (if (0 <=? pz)%Z then Z.to_N (pz + Z.of_N (N.of_nat d)) else N.of_nat d)
+  | None => Z.to_N (pz + 1) <= N.of_nat n /\ exists txt, first_text lines = Some (O, txt) /\ txt <> []
+  end ->
+  yields literal (block_value literal c lines) [] (scan_block_scalar str_ops F literal s).
+Proof.
+  intros s F literal c explicit digit_first lines n pz inds Hchars Hun Hn Hls Hlen Htext Htb Hind.
+  destruct (split_lines lines []) as [cs t] eqn:E.
+  pose proof (split_lines_spec lines [] cs t E) as Hsp. cbn [rev map app] in Hsp.
+  destruct (split_lines_ok F n lines [] cs t E Hls) as [Hcs [Ht1 [Ht2 [Ht3 Ht4]]]]; [constructor|cbn [length]; lia|].
+  pose proof (split_lines_text lines [] Htext) as Hne. rewrite E in Hne. cbn [fst] in Hne.
+  assert (Ht : t = []).
+  { rewrite Hsp in Htb. destruct (chunks_trailing cs t Hne) as [Hl _]. rewrite Hl in Htb.
+    destruct t; [reflexivity|discriminate]. }
+  subst t. cbn [map] in Hsp. rewrite app_nil_r in Hsp.
+  destruct (exists_last Hne) as [front [cl Ecs]].
+  assert (Hfirst : explicit = None -> exists txt, first_text lines = Some (O, txt) /\ txt <> [] ->
+                   True) by (intros _; exists []; tauto).
+  clear Hfirst.
+  assert (Hind' : match explicit with
+                  | Some d => (1 <= d <= 9)%nat /\ N.of_nat n = (if (0 <=? pz)%Z then Z.to_N (pz + Z.of_N (N.of_nat d)) else N.of_nat d)
+                  | None => Z.to_N (pz + 1) <= N.of_nat n /\ (let '(ks, e, txt) := hd cl front in e = O /\ txt <> [])
+                  end).
+  { destruct explicit as [d|]; [exact Hind|].
+    destruct Hind as [Hpz [txt [Hft Htx]]]. split; [exact Hpz|].
+    destruct (split_lines_first lines [] O txt Hft) as [ks' [cs' [t' E']]].
+    rewrite E in E'. inversion E' as [[Ecs' Et']]. rewrite Ecs in Ecs'.
+    destruct front as [|x front]; cbn [app hd] in *.
+    - inversion Ecs'; subst. split; [reflexivity|exact Htx].
+    - inversion Ecs'; subst. split; [reflexivity|exact Htx]. }
+  rewrite Hsp in *. rewrite Ecs in *.
+  apply (block_scalar_chunks_eof s F literal c explicit digit_first front cl n pz inds); auto.
+  rewrite app_length in Ht4. cbn [length] in Ht4. lia.
+Qed.
+
+(* ------------------------------------------------------------------------------------------ *)
+(* scalars without any content line                                                            *)
+(* ------------------------------------------------------------------------------------------ *)
+Lemma line_after_blank_lines : forall ks j m,
+  m_line (mark_after m (blank_lines ks ++ sps j)) = m_line m + N.of_nat (length ks).
+Proof.
+  induction ks as [|k ks IH]; intros j m.
+  - cbn [blank_lines flat_map app length N.of_nat]. rewrite mark_after_spaces. cbn [adv m_line]. lia.
+  - cbn [blank_lines flat_map]. fold (blank_lines ks). rewrite <- app_assoc, mark_after_app, mark_after_blank_line, IH.
+    cbn [nlm adv m_line length]. lia.
+Qed.
+
+Lemma block_value_blanks literal c l :
+  block_value literal c (map Blank l) = match c with CKeep => lfs (length l) | _ => [] end.
+Proof.
+  unfold block_value. replace (has_text (map Blank l)) with false.
+  - rewrite map_length. reflexivity.
+  - induction l; [reflexivity|assumption].
+Qed.
+
+(* the lines of a content-less scalar: the blank lines, and the last line when the input ends inside it *)
+Definition empty_lines (ks : list nat) (j : nat) (r' : list chr) : list bline :=
+  map Blank (ks ++ match r' with [] => (match j with O => [] | S _ => [j] end) | _ => [] end).
+
+Theorem block_scalar_empty : forall (s : sc strin) F literal c (explicit : option nat) (digit_first : bool)
+    (ks : list nat) (j : nat) (r' : list chr) pz inds,
+  si_chars (sc_in s) = header literal c explicit digit_first ++ 10 :: blank_lines ks ++ sps j ++ r' ->
+  unroll_nb (sc_indents s) (sc_indent s) = (pz, inds) ->
+  Forall (fun k => (k < F)%nat) (j :: ks) -> (S (length ks) < F)%nat ->
+  hd0 r' <> 32 -> is_break (hd0 r') = false -> hd0 (blank_lines ks ++ sps j ++ r') <> 9 ->
+  (* the end of the input, or a line that belongs to an enclosing collection *)
+  (r' = [] \/ (hd0 r' <> 0 /\ (Z.of_nat j <= pz)%Z)) ->
+  match explicit with
+  | Some d => (1 <= d <= 9)%nat /\
+              let n := if (0 <=? pz)%Z then Z.to_N (pz + Z.of_N (N.of_nat d)) else N.of_nat d in
+              Forall (fun k => N.of_nat k <= n) (j :: ks)
+  | None => True
+  end ->
+  yields literal (block_value literal c (empty_lines ks j r')) r' (scan_block_scalar str_ops F literal s).
+Proof.
+  intros s F literal c explicit digit_first ks j r' pz inds Hchars Hun HF HFl Hr Hrb Htab Hend Hind.
+  unfold empty_lines. rewrite block_value_blanks.
+  apply (scan_header _ s F literal c explicit digit_first (blank_lines ks ++ sps j ++ r') pz inds); auto.
+  { lia. }
+  { destruct explicit; tauto. }
+  intros lk1 mh Hlk1 Hmh Hline.
+  set (s1 := set_indent pz inds s).
+  assert (Hs1 : forall cs lk m w, sc_indent (mv s1 cs lk m w) = pz) by reflexivity.
+  assert (Hmk : forall cs lk m w, sc_mark (mv s1 cs lk m w) = m) by reflexivity.
+  unfold bs_main. pstep ltac:(apply get_mv). rewrite !Hs1.
+  set (mend := mark_after mh (blank_lines ks ++ sps j)).
+  assert (Hcolend : m_col mend = N.of_nat j) by (apply col_after_blank_lines; exact Hmh).
+  assert (Hlineend : m_line mend = m_line mh + N.of_nat (length ks)) by apply line_after_blank_lines.
+  match goal with |- yields _ _ _ (bind ?ib ?k ?st) =>
+    assert (Hib : exists lk2 indent, lk2 <> O /\ (r' <> [] -> N.of_nat j < indent) /\
+              ib st = Ok ((indent, N.of_nat (length ks)), mv s1 r' lk2 mend true))
+  end.
+  { destruct explicit as [d|]; cbn [inc_of].
+    - destruct Hind as [Hd9 Hks]. cbn zeta in Hks.
+      set (n := if (0 <=? pz)%Z then Z.to_N (pz + Z.of_N (N.of_nat d)) else N.of_nat d) in *.
+      destruct (N.ltb_spec 0 (N.of_nat d)) as [_|Hbad]; [|lia].
+      assert (Hn0 : n <> 0) by (subst n; destruct (0 <=? pz)%Z eqn:E; [apply Z.leb_le in E|]; lia).
+      destruct (N.eqb_spec n 0) as [Hbad|_]; [contradiction|].
+      pose proof (Forall_inv Hks) as Hj. pose proof (Forall_inv_tail Hks) as Hks'.
+      assert (Hjn : r' <> [] -> N.of_nat j < n).
+      { intros Hne. destruct Hend as [E|[_ Hjp]]; [contradiction|]. subst n.
+        destruct (0 <=? pz)%Z eqn:E; [apply Z.leb_le in E|apply Z.leb_gt in E]; lia. }
+      clearbody n.
+      destruct (skip_block_scalar_indent_spec ks j r' F F n 0 s1 lk1 mh) as [lk2 [Hle2 [Hne2 Hs]]]; auto.
+      { inversion HF; subst. lia. }
+      exists lk2, n. split; [exact Hne2|]. split; [exact Hjn|].
+      mstep ltac:(exact Hs). rewrite N.add_0_l.
+      cbv beta in Hj. replace (Nat.min j (N.to_nat n)) with j by lia. rewrite Nat.sub_diag. reflexivity.
+    - change (0 <? 0) with false. cbv match. change (0 =? 0) with true. cbv match.
+      destruct (skip_first_line_indent_spec ks j r' F F 0 0 s1 lk1 mh) as [lk2 [Hle2 [Hne2 Hs]]]; auto.
+      { inversion HF; subst. lia. }
+      eexists lk2, _. split; [exact Hne2|]. split; [|mstep ltac:(exact Hs); cbn [fst snd]; rewrite N.add_0_l; reflexivity].
+      intros Hne. destruct Hend as [E|[_ Hjp]]; [contradiction|]. destruct (0 <? pz)%Z; lia. }
+  destruct Hib as [lk2 [indent [Hne2 [Hind2 Hib]]]].
+  pstep ltac:(exact Hib).
+  pstep ltac:(apply next_is_mv). pstep ltac:(apply get_mv). rewrite !Hmk, !Hs1.
+  destruct Hend as [->|[Hnz Hjp]].
+  - (* the end of the input *)
+    change (is_z (hd0 [])) with true. cbv match.
+    rewrite Hcolend, Hlineend, Hline.
+    destruct (N.eqb_spec (m_line (sc_mark s) + 1 + N.of_nat (length ks)) (m_line (sc_mark s))) as [E|_]; [lia|].
+    match goal with |- yields _ ?v _ (ret (_, TScalar _ (nls ?k [])) _) => assert (Ev : nls k [] = v) end.
+    { rewrite app_length. destruct c; cbn [to_model]; try reflexivity.
+      destruct j as [|j]; cbn [length].
+      + change (0 <? N.of_nat 0) with false. rewrite N.add_0_r, Nat.add_0_r, nls_repeat, Nat2N.id, app_nil_r. reflexivity.
+      + destruct (N.ltb_spec 0 (N.of_nat (S j))) as [_|Hbad]; [|lia].
+        rewrite nls_repeat, app_nil_r. unfold lfs. f_equal. lia. }
+    rewrite Ev. unfold yields. eexists. eexists. split; reflexivity.
+  - assert (Hz : is_z (hd0 r') = false) by (apply N.eqb_neq; exact Hnz).
+    rewrite Hz. cbv match.
+    assert (Hne : r' <> []) by (intros ->; apply Hnz; reflexivity).
+    specialize (Hind2 Hne).
+    rewrite Hcolend.
+    destruct (Z.ltb_spec pz (Z.of_N (N.of_nat j))) as [Hbad|_]; [lia|]. rewrite andb_false_r.
+    pstep ltac:(reflexivity). pstep ltac:(apply get_mv). rewrite !Hmk.
+    assert (HFS : exists F', F = S F') by (destruct F; [lia|eexists; reflexivity]).
+    destruct HFS as [F' HFS].
+    replace (bs_loop F literal indent F) with (bs_loop F literal indent (S F')) by (rewrite HFS; reflexivity).
+    cbn [bs_loop].
+    pstep ltac:(mstep ltac:(apply col_mv); mstep ltac:(apply next_is_mv); rewrite Hcolend;
+                destruct (N.eqb_spec (N.of_nat j) indent) as [E|_]; [lia|]; reflexivity).
+    unfold bs_finish.
+    pstep ltac:(apply next_is_mv). pstep ltac:(apply col_mv). pstep ltac:(apply mark_mv).
+    rewrite Hz. cbn [andb].
+    match goal with |- yields _ ?v _ (ret (_, TScalar _ (rev ?a)) _) => assert (Ev : rev a = v) end.
+    { destruct r' as [|c0 r0]; [congruence|]. rewrite app_nil_r.
+      destruct c; cbn [to_model]; try reflexivity.
+      rewrite nls_of_nat. reflexivity. }
+    rewrite Ev. unfold yields. eexists. eexists. split; reflexivity.
 Qed.
 
 (* ========================================================================================== *)
